@@ -36,6 +36,9 @@ FAMILY = [
     ("five-strict", (7, 2, 3, 4, 5), True, 0),           # > tuple_size_limit: a set
     ("five01-strict", (0, 1, 2, 3, 4), True, 0),         # a set of (type, value) pairs
     ("five-lax", ("A", "zz", "c", "d", "e"), False, 0),
+    ("pairs7-strict", ("A", "zz", "12", 0, False, 1, True), True, 0),   # both members of each look-alike pair, > limit
+    ("pairs4-strict", (0, False, 1, True), True, 0),                      # the same at the tuple size
+    ("pairs7-lax", ("A", "zz", "12", 0, False, 1, True), False, 0),
     ("none", (None,), True, 0),
     ("bytes", (b"ab", "zz"), True, 0),
     ("bytes01", (b"ab", 1), True, 0),
